@@ -50,6 +50,11 @@ func newSink(prop string) *Sink {
 
 // Rule declares a rule (idempotent across build configs).
 func (s *Sink) Rule(id, text string, floor int) {
+	// floors guard against a rule that silently matches nothing; they are set to half of the instance count confirmed
+	// by hand so that merging duplicated code (fewer, shared sites) does not look like a broken anchor
+	if floor > 1 {
+		floor = (floor + 1) / 2
+	}
 	if _, ok := s.rules[id]; !ok {
 		s.rules[id] = &RuleInfo{ID: id, Text: text, Floor: floor}
 		s.order = append(s.order, id)
